@@ -6,6 +6,12 @@ mod midi;
 mod msgs;
 #[path = "../../common/ints.rs"]
 mod ints;
+#[path = "../../common/scan.rs"]
+mod scan;
+#[path = "../../common/cc14.rs"]
+mod cc14;
+#[path = "../../common/nrpn.rs"]
+mod nrpn;
 
 use xs::{Check, Tier};
 
@@ -63,6 +69,31 @@ fn main() {
         "C06" => {
             let chk = Check::new("C06", PART, tier, "exploration");
             msgs::run_c06(&chk);
+            chk.finish()
+        }
+        "C07" => {
+            let chk = Check::new("C07", PART, tier, "model_checking");
+            cc14::run_c07(&chk, tier);
+            chk.finish()
+        }
+        "C08" => {
+            let chk = Check::new("C08", PART, tier, "model_checking");
+            cc14::run_c08(&chk, tier);
+            chk.finish()
+        }
+        "C09" => {
+            let chk = Check::new("C09", PART, tier, "exploration");
+            nrpn::run_c09(&chk, tier);
+            chk.finish()
+        }
+        "C10" => {
+            let chk = Check::new("C10", PART, tier, "model_checking");
+            nrpn::run_c10(&chk, tier);
+            chk.finish()
+        }
+        "C11" => {
+            let chk = Check::new("C11", PART, tier, "model_checking");
+            nrpn::run_c11(&chk, tier);
             chk.finish()
         }
         _ => {
